@@ -36,6 +36,8 @@ VARIABLES
   failAt,     \* [Threads -> 0..NChunks+1]  node that fails for this thread's context (0 = none); InclAt with failIn
   failIn,     \* [Threads -> 0..2]  inner chunk of the include that fails (0 = none)
   wfail,      \* [Threads -> Nat]   the caller's writer fails from its wfail-th Write call on (0 = never)
+  wkind,      \* [Threads -> {"refuse", "full"}]  how it fails: takes nothing and reports an error, or takes everything it is
+              \*                    given and reports an error all the same (io.Writer allows both)
   buf,        \* [Threads -> Seq]   the execution's buffer (buffered variants)
   ibuf,       \* [Threads -> Seq]   the nested buffer of the include
   sink,       \* [Threads -> Seq]   what the caller's writer has accepted
@@ -44,7 +46,7 @@ VARIABLES
   runs,       \* [Threads -> Nat] executions started by the thread
   hist        \* sequence of finished executions [t, entry, ctx, out, err, sink]
 
-vars == <<compiled, pc, sub, entry, ctx, failAt, failIn, wfail, buf, ibuf, sink, nwrites, res, runs, hist>>
+vars == <<compiled, pc, sub, entry, ctx, failAt, failIn, wfail, wkind, buf, ibuf, sink, nwrites, res, runs, hist>>
 
 Chunk(i) == <<"c", i>>
 IChunk(j) == <<"i", j>>
@@ -65,6 +67,8 @@ Init ==
   /\ failIn \in [Threads -> 0..2]
   /\ \A t \in Threads : (failIn[t] # 0) <=> (failAt[t] = InclAt /\ InclAt # 0 /\ failIn[t] \in 1..2)
   /\ wfail \in [Threads -> 0..MaxWFail]
+  /\ wkind \in [Threads -> {"refuse", "full"}]
+  /\ \A t \in Threads : wfail[t] = 0 => wkind[t] = "refuse"
   /\ buf = [t \in Threads |-> <<>>] /\ ibuf = [t \in Threads |-> <<>>]
   /\ sink = [t \in Threads |-> <<>>] /\ nwrites = [t \in Threads |-> 0]
   /\ res = [t \in Threads |-> NoRes]
@@ -75,18 +79,19 @@ Buffered(t) == entry[t] # "Unbuffered"
 
 \* a Write call of the execution on the caller's writer (unbuffered chunk, or the final WriteTo)
 \* returns <<accepted, ok>>
-WriterAccepts(t) == wfail[t] = 0 \/ nwrites[t] + 1 < wfail[t]
+WriterAccepts(t) == wfail[t] = 0 \/ nwrites[t] + 1 < wfail[t]          \* the call reports no error
+WriterTakes(t) == WriterAccepts(t) \/ wkind[t] = "full"                 \* the data arrives
 
 Finish(t, out, err) ==
   /\ res' = [res EXCEPT ![t] = [out |-> out, err |-> err]]
   /\ pc' = [pc EXCEPT ![t] = NChunks + 2]
   /\ hist' = Append(hist, [t |-> t, entry |-> entry[t], ctx |-> ctx[t], out |-> out, err |-> err,
-                           sink |-> sink'[t], failAt |-> failAt[t], failIn |-> failIn[t], wfail |-> wfail[t]])
+                           sink |-> sink'[t], failAt |-> failAt[t], failIn |-> failIn[t], wfail |-> wfail[t], wkind |-> wkind[t]])
 
 Start(t) ==
   /\ pc[t] = 0
   /\ pc' = [pc EXCEPT ![t] = 1]
-  /\ UNCHANGED <<compiled, sub, entry, ctx, failAt, failIn, wfail, buf, ibuf, sink, nwrites, res, runs, hist>>
+  /\ UNCHANGED <<compiled, sub, entry, ctx, failAt, failIn, wfail, wkind, buf, ibuf, sink, nwrites, res, runs, hist>>
 
 \* deliver data to the execution's target: the buffer, or the caller's writer (whose errors the unbuffered variant ignores)
 Deliver(t, data) ==
@@ -94,7 +99,7 @@ Deliver(t, data) ==
     THEN /\ buf' = [buf EXCEPT ![t] = @ \o data]
          /\ UNCHANGED <<sink, nwrites>>
     ELSE /\ nwrites' = [nwrites EXCEPT ![t] = @ + 1]
-         /\ sink' = IF WriterAccepts(t) THEN [sink EXCEPT ![t] = @ \o data] ELSE sink
+         /\ sink' = IF WriterTakes(t) THEN [sink EXCEPT ![t] = @ \o data] ELSE sink
          /\ UNCHANGED buf
 
 \* an ordinary node: writes its chunk, or fails
@@ -106,7 +111,7 @@ Node(t) ==
        ELSE /\ Deliver(t, <<Chunk(pc[t])>>)
             /\ pc' = [pc EXCEPT ![t] = @ + 1]
             /\ UNCHANGED <<res, hist>>
-  /\ UNCHANGED <<compiled, sub, entry, ctx, failAt, failIn, wfail, ibuf, runs>>
+  /\ UNCHANGED <<compiled, sub, entry, ctx, failAt, failIn, wfail, wkind, ibuf, runs>>
 
 \* the include node: inner chunk 1, inner chunk 2 into the nested buffer, then hand-over in one piece
 InclStep(t) ==
@@ -122,14 +127,15 @@ InclStep(t) ==
             \* ordinary node - it notices a refusing writer: the unbuffered execution then fails with the writer's error.
             IF ~Buffered(t) /\ ~WriterAccepts(t)
               THEN /\ nwrites' = [nwrites EXCEPT ![t] = @ + 1]
-                   /\ UNCHANGED <<buf, sink, ibuf, sub>>
+                   /\ sink' = IF WriterTakes(t) THEN [sink EXCEPT ![t] = @ \o ibuf[t]] ELSE sink
+                   /\ UNCHANGED <<buf, ibuf, sub>>
                    /\ Finish(t, <<>>, "writer")
               ELSE /\ Deliver(t, ibuf[t])
                    /\ ibuf' = [ibuf EXCEPT ![t] = <<>>]
                    /\ sub' = [sub EXCEPT ![t] = 0]
                    /\ pc' = [pc EXCEPT ![t] = @ + 1]
                    /\ UNCHANGED <<res, hist>>
-  /\ UNCHANGED <<compiled, entry, ctx, failAt, failIn, wfail, runs>>
+  /\ UNCHANGED <<compiled, entry, ctx, failAt, failIn, wfail, wkind, runs>>
 
 \* end of the node list: buffered variants hand their buffer over
 Flush(t) ==
@@ -143,20 +149,21 @@ Flush(t) ==
             /\ IF WriterAccepts(t)
                  THEN /\ sink' = [sink EXCEPT ![t] = @ \o buf[t]]
                       /\ Finish(t, <<>>, "")
-                 ELSE /\ UNCHANGED sink
-                      /\ Finish(t, <<>>, "writer")
+                 ELSE /\ sink' = IF WriterTakes(t) THEN [sink EXCEPT ![t] = @ \o buf[t]] ELSE sink
+                      /\ Finish(t, <<>>, "writer")            \* the writer's error is handed back, whatever it says it took
        [] entry[t] = "Unbuffered" ->
             /\ UNCHANGED <<sink, nwrites>>
             /\ Finish(t, <<>>, "")
-  /\ UNCHANGED <<compiled, sub, entry, ctx, failAt, failIn, wfail, buf, ibuf, runs>>
+  /\ UNCHANGED <<compiled, sub, entry, ctx, failAt, failIn, wfail, wkind, buf, ibuf, runs>>
 
 \* the same compiled template is executed again, with any entry point, context and faults
 Restart(t) ==
   /\ pc[t] = NChunks + 2 /\ runs[t] < MaxRuns
   /\ runs' = [runs EXCEPT ![t] = @ + 1]
   /\ pc' = [pc EXCEPT ![t] = 0] /\ sub' = [sub EXCEPT ![t] = 0]
-  /\ \E e \in Entries, c \in Contexts, fa \in 0..NChunks, fi \in 0..2, wf \in 0..MaxWFail :
+  /\ \E e \in Entries, c \in Contexts, fa \in 0..NChunks, fi \in 0..2, wf \in 0..MaxWFail, wk \in {"refuse", "full"} :
         /\ (fi # 0) <=> (fa = InclAt /\ InclAt # 0 /\ fi \in 1..2)
+        /\ (wf = 0 => wk = "refuse") /\ wkind' = [wkind EXCEPT ![t] = wk]
         /\ entry' = [entry EXCEPT ![t] = e] /\ ctx' = [ctx EXCEPT ![t] = c]
         /\ failAt' = [failAt EXCEPT ![t] = fa] /\ failIn' = [failIn EXCEPT ![t] = fi] /\ wfail' = [wfail EXCEPT ![t] = wf]
   /\ buf' = [buf EXCEPT ![t] = <<>>] /\ ibuf' = [ibuf EXCEPT ![t] = <<>>]
@@ -185,7 +192,7 @@ Seen(h) == IF h.entry \in {"Execute", "ExecuteBytes"} THEN h.out ELSE h.sink
 Isolation ==
   \A i, j \in 1..Len(hist) :
      (hist[i].entry = hist[j].entry /\ hist[i].ctx = hist[j].ctx /\ hist[i].failAt = hist[j].failAt
-      /\ hist[i].failIn = hist[j].failIn /\ hist[i].wfail = hist[j].wfail)
+      /\ hist[i].failIn = hist[j].failIn /\ hist[i].wfail = hist[j].wfail /\ hist[i].wkind = hist[j].wkind)
         => (hist[i].err = hist[j].err /\ Seen(hist[i]) = Seen(hist[j]))
 
 \* C14 Agree: with a healthy writer the four entry points yield the same bytes and fail in the same cases
@@ -197,13 +204,13 @@ Agree ==
 SuccessIsFull == \A i \in 1..Len(hist) : (hist[i].err = "" /\ hist[i].wfail = 0) => Seen(hist[i]) = FullOutput
 
 \* C14 AllOrNothing: after a failed ExecuteWriter the caller's writer has received nothing
-AllOrNothing == \A i \in 1..Len(hist) : (hist[i].entry = "ExecuteWriter" /\ hist[i].err # "") => hist[i].sink = <<>>
+AllOrNothing == \A i \in 1..Len(hist) : (hist[i].entry = "ExecuteWriter" /\ hist[i].err = "exec") => hist[i].sink = <<>>
 \* C14 PrefixOnly: the unbuffered variant may have written something, and then only a leading part of the full output
 PrefixOnly == \A t \in Threads : IsPrefix(sink[t], FullOutput)
 \* C14 WriterErrorReturned
 WriterErrorReturned ==
   \A i \in 1..Len(hist) :
-     (hist[i].entry = "ExecuteWriter" /\ hist[i].failAt = 0 /\ hist[i].wfail = 1) => hist[i].err = "writer"
+     (hist[i].entry = "ExecuteWriter" /\ hist[i].failAt = 0 /\ hist[i].wfail = 1) => hist[i].err = "writer"      \* (either kind of failing writer)
 \* an include is all or nothing inside its execution too
 IncludeAtomic ==
   \A t \in Threads : \A i \in 1..Len(sink[t]) :
